@@ -173,43 +173,35 @@ theorem C15_redirect_target_port (c : Site) (hman : c.hasManager = true) (hw : w
 example : wantsRedirect { host := b!"example.com", enabled := true, manual := true } = true ∧
     (redirPlaintextHost { host := b!"example.com", enabled := true, manual := true }).redir = some b!"2015" := by decide
 
-/-- COMPLETENESS, partial: an HTTPS site that wants a redirect and whose host has no declared site on the HTTP port is
-covered by a synthesised site of its host — unless it is not on port 443 itself while another site of its host is, and that
-site makes no redirect (TLS off / no_redirect / plain HTTP).  Excluded: exactly finding C15-redirect-deferred-to-443-sibling. -/
-theorem C15_redirect_complete_partial (e : List Site) (k : Nat) (c : Site) (hk : e[k]? = some c)
-    (hw : wantsRedirect c = true) (hnp : NoPlain e c.host) :
-    Covered (redirsGo e e 0 []) c.host ∨ Blocked e k c := by
+/-- COMPLETENESS: every HTTPS site that wants a redirect (TLS on, no_redirect off, not declared as plain HTTP) and whose host
+has no declared site on the HTTP port is covered by a synthesised site of its host.  (Total since the repair
+"fix: a site on the HTTPS port suppresses its siblings' redirect only if it makes one itself".) -/
+theorem C15_redirect_complete (e : List Site) (k : Nat) (c : Site) (hk : e[k]? = some c)
+    (hw : wantsRedirect c = true) (hnp : NoPlain e c.host) : Covered (redirsGo e e 0 []) c.host := by
   have hlt : k < e.length := by
     rcases Nat.lt_or_ge k e.length with h | h
     · exact h
     · rw [List.getElem?_eq_none h] at hk; cases hk
-  rcases (inv_final e).complete k c hlt hk hw hnp with h | h | ⟨j, cj, hj, hcj, _⟩
-  · exact Or.inl h
-  · exact Or.inr h
+  rcases (inv_final e).complete k c hlt hk hw hnp with h | ⟨j, cj, hj, hcj, _⟩
+  · exact h
   · rw [List.getElem?_eq_none hj] at hcj; cases hcj
 
-/-- the two sites of the witness: `a:443` with no_redirect, `a:5001` -/
+/-- the two sites of the former finding C15-redirect-deferred-to-443-sibling: `a:443` with no_redirect, `a:5001` -/
 def witnessSites : List Site :=
   [{ host := b!"a", port := b!"443", scheme := b!"https", enabled := true, noRedirect := true },
    { host := b!"a", port := b!"5001", enabled := true }]
 
-/-- …and the code (as modelled, confirmed on the real code by stream c15.sites) does leave such a site without redirect:
-`a:443 { tls { no_redirect } }` + `a:5001`. -/
-theorem C15_redirect_complete_fails_witness :
-    ∃ c, witnessSites[1]? = some c ∧ wantsRedirect c = true ∧ NoPlain witnessSites c.host ∧
-      makePlaintextRedirects witnessSites = witnessSites := by
-  refine ⟨_, rfl, by decide, ?_, by decide⟩
-  intro c hc
-  simp only [witnessSites, List.mem_cons, List.not_mem_nil, or_false] at hc
-  rcases hc with rfl | rfl <;> decide
+/-- …for which the repaired code synthesises the redirect to port 5001 (regression example of the former gap). -/
+theorem C15_redirect_443_sibling_regression :
+    makePlaintextRedirects witnessSites = witnessSites ++ [redirPlaintextHost { host := b!"a", port := b!"5001", enabled := true }] ∧
+    (redirPlaintextHost { host := b!"a", port := b!"5001", enabled := true }).redir = some b!"5001" := by decide
 
-/-- THE SITE-SET VERDICT (stream c15.sites), partial: applied to what the model pipeline shows, the judged predicate
+/-- THE SITE-SET VERDICT (stream c15.sites): applied to what the model pipeline shows, the judged predicate
 `sitesVerdict` — managed ⇔ qualifies, managed ⇒ TLS, plain HTTP ⇒ no TLS, every synthesised site a plain port-80 site for a host
 without plaintext site whose redirect goes to an HTTPS site of that host on the right port, one per host, every HTTPS site
-covered — answers "ok", or the one verdict class of finding C15-redirect-deferred-to-443-sibling.  For all lists of fresh sites. -/
-theorem C15_sites_model_verdict_partial (ds : List Site) (hf : ∀ d ∈ ds, Fresh d) :
-    let v := sitesVerdict (ds.map observeSite) ((redirsGo (ds.map stageE) (ds.map stageE) 0 []).map observeRedirect)
-    v = "ok" ∨ v = "bad:redirect-missing-443-sibling:an HTTPS site has no redirect site because a site of the same host on port 443 (which produces no redirect itself) is preferred" :=
+covered — answers "ok".  For all lists of fresh sites. -/
+theorem C15_sites_model_verdict_ok (ds : List Site) (hf : ∀ d ∈ ds, Fresh d) :
+    sitesVerdict (ds.map observeSite) ((redirsGo (ds.map stageE) (ds.map stageE) 0 []).map observeRedirect) = "ok" :=
   sites_verdict ds hf
 
 /-- Sites built the way the harness and the Casketfile front end build them are fresh. -/
